@@ -1,6 +1,7 @@
 """C09 - reading untrusted bytes uses bounded time and memory per call; an iterator never yields more
 points than the declared record count."""
 import re
+import struct
 from vlib import core, tot
 
 MAX_PAGE = 1 << 20            # MAX_PAGE_SIZE of paged_reader.rs
@@ -27,6 +28,111 @@ BOUNDS = {
 }
 OPS_PER_PAGE, OPS_CONST = 2, 8          # one seek + one read per page touched, pages are touched in ascending order within a call
 TIME_LIMIT_US = 5_000_000
+
+
+# ---------------------------------------------------------------- zero-width record receiving large streams
+# Deterministic probe for the defect repaired in the crate by 7dd87aa: QueueReader::advance appended the byte stream of EVERY record
+# to its bit buffer, also for records of zero bit size, whose buffers are never consumed; ByteStreamReadBuffer::append copies what
+# is left each time.  File family: prototype [Integer 0..1, Integer 7..7]; N data packets with stream lengths [0, 65524] (the largest
+# well-formed data packet: 65536 bytes), then one data packet with one byte for the one-bit record.  The first next() reads all N + 1
+# packets.  Oracle: the peak additional heap of the whole iteration stays below a constant that does not depend on N (the unrepaired
+# crate holds the whole file, twice while appending), and the device operations stay linear in the file size.
+ZW_CHUNK = 65524
+ZW_PACKETS = (16, 64, 256)
+ZW_HEAP_BOUND = 4 * PACKET + 64 * K      # read buffer (<= 64 KiB) + bit buffers (leftover + one chunk, double-buffered while appending) + slack
+
+
+def zw_stream_file(n_packets, chunk=ZW_CHUNK):
+    """header, section at 48 (n_packets x [0, chunk] + one packet [1 byte, 0]), XML; 8 points"""
+    def data_packet(streams):
+        raw = b"".join(struct.pack("<H", len(x)) for x in streams) + b"".join(streams)
+        ln = 6 + len(raw)
+        pad = (-ln) % 4
+        return struct.pack("<BBHH", 1, 0, ln + pad - 1, len(streams)) + raw + bytes(pad)
+    fill = bytes((i * 7 + 3) % 251 for i in range(chunk))
+    body = b"".join([data_packet([b"", fill])] * n_packets + [data_packet([b"\xa5", b""])])
+    section = struct.pack("<B7xQQQ", 1, 32 + len(body), 80, 0) + body
+    xml = ('<?xml version="1.0" encoding="UTF-8"?>\n<e57Root type="Structure" xmlns="http://www.astm.org/COMMIT/E57/2010-e57-v1.0">'
+           '<formatName type="String">ASTM E57 3D Imaging Data File</formatName><guid type="String">g</guid>'
+           '<versionMajor type="Integer">1</versionMajor><versionMinor type="Integer">0</versionMinor>'
+           '<data3D type="Vector" allowHeterogeneousChildren="1"><vectorChild type="Structure"><guid type="String">p</guid>'
+           '<points type="CompressedVector" fileOffset="48" recordCount="8"><prototype type="Structure">'
+           '<cartesianX type="Integer" minimum="0" maximum="1"/><cartesianY type="Integer" minimum="7" maximum="7"/>'
+           '</prototype></points></vectorChild></data3D></e57Root>').encode()
+    log = bytearray(48) + bytearray(section)
+    while len(log) % 4:
+        log.append(0)
+    xoff = len(log)
+    log += xml
+    n = (len(log) + 1019) // 1020
+    log[0:48] = b"ASTM-E57" + struct.pack("<IIQQQQ", 1, 0, n * 1024, tot.phys_of_log(xoff), len(xml), 1024)
+    return tot.seal(log)
+
+
+def zero_width_stream_probe(rep, packets=ZW_PACKETS, chunk=ZW_CHUNK):
+    """-> number of calls over a bound; violations of class c09-zero-width-stream-retained (replay: the parameters of the file)"""
+    files = [(n, zw_stream_file(n, chunk)) for n in packets]
+    lines = ["TOT %s 0 -" % tot.devtok(f) for _, f in files]
+    rows, bad = [], 0
+    worst = None
+    for prof in ("release", "debug"):
+        outs = tot.run_lines(core.ensure_harness(prof), lines)
+        for (n, f), o in zip(files, outs):
+            rep.count(1)
+            rep.distinct(("zw-stream", n, chunk))
+            t = tot.parse_tot(o)
+            L = len(f)
+            pages = (L + 1023) // 1024
+            if t.get("hang") or t["crash"]:
+                bad += 1
+                rep.violation("c09-zero-width-stream-retained",
+                              "%s profile: reading a %d-byte file with %d data packets whose %d-byte streams all belong to a record of zero bit size %s" %
+                              (prof, L, n, chunk, "did not return" if t.get("hang") else "killed the process: " + (t["raw"] or "")[:120]),
+                              dict(kind="zero-width-stream", packets=n, chunk=chunk, profile=prof))
+                continue
+            for kind, label, text, _ in calls_of(t):
+                if kind not in ("raw", "simple"):
+                    continue
+                me = tot.meter(text)
+                if "m" not in me:
+                    continue
+                res = tot.strip_meter(text)[:60]
+                rows.append(dict(packets=n, file_bytes=L, profile=prof, call=label, result=res, peak_heap=me["m"], device_ops=me["o"],
+                                 slowest_step_us=me["t"]))
+                why = None
+                if me["m"] > ZW_HEAP_BOUND:
+                    why = ("peak additional heap %d bytes (%.2f x the file) exceeds the bound %d, which does not depend on the number of packets: the bytes of a record "
+                           "of zero bit size must not be kept" % (me["m"], me["m"] / float(L), ZW_HEAP_BOUND))
+                elif me["o"] > OPS_PER_PAGE * pages + OPS_CONST:
+                    why = "%d device operations on %d pages (bound %d * pages + %d)" % (me["o"], pages, OPS_PER_PAGE, OPS_CONST)
+                if why:
+                    bad += 1
+                    if worst is None or n < worst[0]:
+                        worst = (n, "%s profile, %s on a %d-byte file of %d data packets with stream lengths [0, %d] for the prototype [Integer 0..1, Integer 7..7] (%s): %s" %
+                                 (prof, label, L, n, chunk, res, why), prof)
+    if worst:
+        rep.violation("c09-zero-width-stream-retained", worst[1], dict(kind="zero-width-stream", packets=worst[0], chunk=chunk, profile=worst[2]))
+    # the same family, small: model and implementation agree on results and device operations
+    small = zw_stream_file(3, 1000)
+    bin_d = core.ensure_harness("debug")
+    o = tot.run_lines(bin_d, ["TOT %s 0 -" % tot.devtok(small)])[0]
+    td = tot.parse_tot(o)
+    corr = "not-run"
+    if not td["crash"] and not td.get("hang") and not td["panics"]:
+        mo = core.run_cases(core.DRIVER, [tot.model_line(td, tot.devtok(small))])[0]
+        st, detail = tot.compare(td, mo)
+        corr = st
+        if st == "mismatch":
+            bad += 1
+            rep.violation("correspondence-c09", "model and implementation differ on the zero-width stream family (3 packets of 1000 bytes): %s" % detail,
+                          dict(kind="zero-width-stream", packets=3, chunk=1000, profile="debug",
+                               failing="correspondence reader model vs implementation incl. device operation counts"), no_input=True)
+    rep.cov["zero_width_stream_probe"] = dict(
+        rule="prototype [Integer 0..1, Integer 7..7]; N data packets with stream lengths [0, %d], then one packet [1, 0]; 8 points; the first next() reads every packet. "
+             "Oracle: peak additional heap of a whole raw / simple iteration <= %d bytes whatever N; device operations <= %d * pages + %d; times are reported, not judged" %
+             (chunk, ZW_HEAP_BOUND, OPS_PER_PAGE, OPS_CONST),
+        packets=list(packets), measured=rows, small_instance_model_vs_impl=corr, calls_over_a_bound=bad)
+    return bad
 
 
 def zero_width_count(proto):
@@ -70,6 +176,10 @@ def run(rep, tier, rng, replay=None):
         "the measured bounds use the constants listed under `bounds` in the evidence"]
     if not ok:
         return
+    if replay and replay.get("kind") == "zero-width-stream":
+        zero_width_stream_probe(rep, packets=(int(replay["packets"]),), chunk=int(replay.get("chunk", ZW_CHUNK)))
+        return
+    n_probe_bad = zero_width_stream_probe(rep) if not replay else 0
     res = tot.explore(rep, tier, rng, replay)
     muts = res["muts"]
     stats = {}
@@ -80,6 +190,13 @@ def run(rep, tier, rng, replay=None):
         nonlocal n_bad
         L = len(m["phys"])
         pages = (L + 1023) // 1024
+        if t.get("hang"):
+            n_bad += 1
+            rep.violation("c09-call-does-not-return",
+                          "%s profile: a reading call on a %s mutation of %s (%d bytes) did not return within %s s (process killed; confirmed by running this file alone, twice)%s" %
+                          (prof, m["kind"], m["base"], L, t["raw"].split()[1], ": " + m["note"] if m.get("note") else ""),
+                          dict(kind="file", file=m["phys"].hex(), mutation=m["kind"], base=m["base"], profile=prof, note=m.get("note", "")))
+            return
         if t["crash"]:
             n_bad += 1
             rep.violation("c09-abort", "%s profile: the process died on a %s mutation of %s (%d bytes) - allocation beyond the harness limit of 1 GiB, or abort: %s" %
@@ -131,7 +248,7 @@ def run(rep, tier, rng, replay=None):
         for prof in ("debug", "release"):
             judge(prof, m, res["tot"][prof][i])
         td = res["tot"]["debug"][i]
-        if res["model"][i] is not None and not td["crash"] and not td["panics"]:
+        if res["model"][i] is not None and not td["crash"] and not td["panics"] and not td.get("hang"):
             n_model += 1
             st, detail = tot.compare(td, res["model"][i])
             if st == "xml_layer_not_modelled":
@@ -155,6 +272,11 @@ def run(rep, tier, rng, replay=None):
         for prof in ("debug", "release"):
             o = fr["out"][prof][i]
             t = tot.parse_tot(o)
+            if t.get("hang"):
+                n_bad += 1
+                rep.violation("c09-call-does-not-return", "%s ... (%s) did not return within %s s (confirmed alone)" % (" ".join(toks[:1] + toks[2:6])[:100], fr["notes"][i], o.split()[1]),
+                              dict(kind="free-descriptor", case=line))
+                continue
             if t["crash"]:
                 n_bad += 1
                 rep.violation("c09-abort", "the process died on %s (%s)" % (line[:60], fr["notes"][i]), dict(kind="free-descriptor", case=line))
@@ -172,6 +294,8 @@ def run(rep, tier, rng, replay=None):
                 if " over" in sec:
                     n_bad += 1
                     rep.violation("c09-count", "more points than records: %s" % tot.strip_meter(sec)[:160], dict(kind="free-descriptor", case=line))
+        if fr["out"]["debug"][i].startswith("HANG"):
+            continue
         if tot.comparable_free(fr["out"]["debug"][i]) != fr["model"][i]:
             n_corr += 1
             rep.violation("correspondence-c09", "model and implementation differ on %s (%s): impl [%s] model [%s]" %
@@ -188,7 +312,7 @@ def run(rep, tier, rng, replay=None):
                    bounds={k: "%d * len(file) + %d" % v for k, v in BOUNDS.items()},
                    bounds_note="the bounds do not depend on the prototype; a raw or simple iteration over a prototype with zero-width records that exceeds its bound is reported as "
                                "c09-zero-width-amplification (regression probes: hand-built files with 100 and 500 zero-width records), anything else as c09-memory-bound; device operations per call <= %d * pages + %d; every single call <= %d us (release)" % (OPS_PER_PAGE, OPS_CONST, TIME_LIMIT_US),
-                   measured=stats, calls_over_a_bound=n_bad, model_runs=n_model, xml_layer_not_modelled=n_skip, correspondence_failures=n_corr,
+                   measured=stats, calls_over_a_bound=n_bad + n_probe_bad, model_runs=n_model, xml_layer_not_modelled=n_skip, correspondence_failures=n_corr,
                    traces_validated_against_impl=n_model + len(fr["lines"]), harness_allocation_limit_bytes=1 << 30)
     if muts:
         k = len(muts) // 3
